@@ -1241,55 +1241,63 @@ def r03_7(q, R):
                     "is depth + 1 on the same iterator; on_every_line propagates the line error and the callback error")
     nx = q.fn("next", impl_ty="WithMoreIdentIter", trait="Iterator")
     if R.anchor("R03.7", "impl Iterator for WithMoreIdentIter :: next", nx):
-        ms = [n for n in H.walk(nx["body"]) if n.get("k") == "match" and (n["scrut"].get("ty") or "").endswith("cmp::Ordering")]
-        if R.anchor("R03.7", "match on Ordering in next", len(ms) == 1, sp=nx["sp"]):
-            m = ms[0]
-            sc = H.peel(m["scrut"])
-            ok = False
-            if sc.get("k") == "mcall" and sc["name"] == "cmp":
-                l = H.peel(sc["recv"])
-                r = H.peel(sc["args"][0])
-                ok = l.get("k") == "mcall" and l["name"] == "get_idents" and r.get("k") == "field" and r["name"] == "depth" and \
-                    H.local_of(r["e"]) is not None and H.local_of(r["e"])[1] == "self"
-            R.inst("R03.7", "next:compare", ok, sp=sc.get("sp"), expect="line.get_idents().cmp(&self.depth)", got=H.render(sc))
-            for variant in ("Less", "Equal", "Greater"):
-                arm = None
-                for a in m["arms"]:
-                    r = T.match_pat(a["pat"], T.V(variant), {})
-                    if r is True and "guard" not in a:
-                        arm = a
-                        break
-                    if r is None or (r is True and "guard" in a):
-                        break
-                if arm is None:
-                    R.inst("R03.7", "next:%s" % variant, False, sp=m.get("sp"), detail="no decidable arm for Ordering::%s" % variant)
-                    continue
-                b = H.peel(arm["body"])
-                if variant == "Less":
-                    c = H.ctor_of(b)
-                    ok = bool(c) and c[1] == "None"
-                    exp = "None"
-                elif variant == "Equal":
-                    ok = b.get("k") == "mcall" and b["name"] == "next" and H.place_root(b["recv"])[1][-1:] == ["iter"]
-                    exp = "self.iter.next()"
-                else:
-                    c = H.ctor_of(b)
-                    ok = bool(c) and c[1] == "Some" and b.get("k") == "call" and H.ctor_of(H.peel(b["args"][0])) is not None \
-                        and H.ctor_of(H.peel(b["args"][0]))[1] == "Err"
-                    exp = "Some(Err(..))"
-                R.inst("R03.7", "next:%s" % variant, bool(ok), sp=arm["body"].get("sp"), expect=exp, got=H.render(b)[:80])
-            # an Err item at the front is handed on as it is (whatever the depth); an exhausted iterator ends the level (`peek()?`)
-            def is_peek(e):
-                e = H.peel(e, tries=True)
-                return e.get("k") == "mcall" and e["name"] == "peek" and H.place_root(e["recv"])[1][-1:] == ["iter"]
-            peeks = [n for n in H.walk(nx["body"]) if n.get("k") == "try" and is_peek(n)]
-            nexts = [n for n in H.walk(nx["body"]) if n.get("k") == "mcall" and n["name"] == "next" and H.place_root(n["recv"])[1][-1:] == ["iter"]]
-            on_err = [n for n in nexts if U.variant_conditions(nx["body"], n, is_peek) == {"Err"}]
-            on_ok = [n for n in nexts if U.variant_conditions(nx["body"], n, is_peek) == {"Ok"}]
-            cmp_ok = U.variant_conditions(nx["body"], m, is_peek) == {"Ok"}
-            R.inst("R03.7", "next:error-line-passed-on", len(peeks) == 1 and len(on_err) == 1 and len(on_ok) == 1 and cmp_ok and len(nexts) == 2, sp=nx["sp"],
-                   expect="self.iter.peek()? is Err(_) => self.iter.next(); Ok(line) => the indentation comparison",
-                   got={"peek()?": len(peeks), "next() under Err": len(on_err), "next() under Ok": len(on_ok), "comparison under Ok": cmp_ok})
+        # decided by evaluation (shape-independent): next() is run for the five situations of the underlying peekable iterator
+        #   exhausted | front is Err | front is Ok(line) with fewer / the same / more indentation than self.depth
+        # and classified by (what it returns, whether it consumed the front item)
+        DEPTH = 2
+
+        def situation(front, idents=None):
+            consumed = []
+
+            def peek(args):
+                if "iter" in T.show(args[0]):
+                    return front
+                return None
+
+            def nxt(args):
+                if "iter" in T.show(args[0]):
+                    consumed.append(1)
+                    return T.sym("<front item>")
+                return None
+
+            def get_idents(args):
+                return ("i", idents) if idents is not None else None
+
+            def cmp_(args):
+                if len(args) == 2 and args[0][0] == "i" and args[1][0] == "i":
+                    return T.V("Less" if args[0][1] < args[1][1] else ("Equal" if args[0][1] == args[1][1] else "Greater"))
+                return None
+            ev = T.Evaluator(calls={"peek": peek, "next": nxt, "get_idents": get_idents, "cmp": cmp_,
+                                    "next_if": lambda a: None, "peek_mut": peek})
+            me = ("st", "WithMoreIdentIter", {"depth": ("i", DEPTH), "iter": T.sym("self.iter")})
+            try:
+                res = ev.run_fn(nx, [me])
+            except Exception as e:       # an expression the evaluator cannot follow
+                return "?(%s)" % type(e).__name__, len(consumed)
+            sres = T.show(res)
+            if res[0] == "err" or sres.startswith("Err"):
+                kind = "None" if "None" in str(res) else "Err"        # `peek()?` on None leaves through the `?`
+            elif res[0] == "v" and res[1] == "None":
+                kind = "None"
+            elif res[0] == "v" and res[1] == "Some" and res[2] and res[2][0][0] == "v" and res[2][0][1] == "Err":
+                kind = "Some(Err)"
+            elif "<front item>" in sres:
+                kind = "front item"
+            else:
+                kind = "?" + sres[:60]
+            return kind, len(consumed)
+        line = T.sym("line")
+        table = [
+            ("exhausted", T.V("None"), None, ("None", 0), "the level ends"),
+            ("Err", T.V("Some", T.V("Err", T.sym("e"))), None, ("front item", 1), "an Err line is passed on"),
+            ("Less", T.V("Some", T.V("Ok", line)), DEPTH - 1, ("None", 0), "leave the level, the line is kept for the outer level"),
+            ("Equal", T.V("Some", T.V("Ok", line)), DEPTH, ("front item", 1), "the line belongs to this level: hand it out"),
+            ("Greater", T.V("Some", T.V("Ok", line)), DEPTH + 1, ("Some(Err)", 0), "a line indented deeper than its parent level allows is an error"),
+        ]
+        for name, front, idents, want, why in table:
+            got = situation(front, idents)
+            key = {"exhausted": "next:exhausted", "Err": "next:error-line-passed-on"}.get(name, "next:%s" % name)
+            R.inst("R03.7", key, got == want, sp=nx["sp"], expect="%s, %d item(s) consumed" % want, got="%s, %d item(s) consumed" % got, detail=why)
     nw = q.fn("new", impl_ty="WithMoreIdentIter")
     if R.anchor("R03.7", "fn WithMoreIdentIter::new", nw):
         lits = [n for n in H.walk(nw["body"]) if n.get("k") == "struct" and U.short(n.get("adt")) == "WithMoreIdentIter"]
